@@ -112,6 +112,10 @@ pub struct Profile {
     pub start_past_legacy: bool,
     /// a third of the ordinary transactions try to spend the first output of a staking transaction
     pub prefer_staked: bool,
+    /// half of the mainnet/testnet histories start above the legacy heights (979 000), like `start_past_legacy`
+    pub past_legacy_half: bool,
+    /// number of small MEL coins in the seed funds (each withdrawal burns one as its fee)
+    pub nuggets: usize,
     /// some faucets are the literal grandfathered mainnet faucet
     pub grandfathered_faucet: bool,
     /// one destination in eight is a covenant that reads the previous header (expiring offers, time locks)
@@ -149,6 +153,8 @@ impl Profile {
             warp: false,
             start_past_legacy: false,
             prefer_staked: false,
+            past_legacy_half: false,
+            nuggets: 4,
             grandfathered_faucet: false,
             header_covenants: true,
             mempool: true,
@@ -1485,7 +1491,7 @@ pub fn run_plan(plan: &Plan, profile: &Profile, mon: &mut dyn Monitor, st: &mut 
     let mut snap = w.snap();
     mon.on_start(&w, st)?;
     let mut txs_in_block = 0usize;
-    if profile.start_past_legacy && refstf::legacy_net(w.net) {
+    if (profile.start_past_legacy || (profile.past_legacy_half && (plan.cfg.val as u32 + plan.cfg.denom as u32) % 2 == 1)) && refstf::legacy_net(w.net) {
         let barrier = if w.net == NetID::Mainnet { 829_999 } else { 499 };
         if !teleport(&mut w, barrier, st) {
             return Ok(());
@@ -1550,11 +1556,11 @@ pub fn run_plan(plan: &Plan, profile: &Profile, mon: &mut dyn Monitor, st: &mut 
             tx.outputs.push(CoinData { covhash: t, value: CoinValue(v), denom: d, additional_data: Default::default() });
         }
         let nugget = (3000u128.saturating_mul(snap.fee_mult) >> 16).saturating_mul(8).max(50_000_000).min(1u128 << 100);
-        for _ in 0..4 {
+        for _ in 0..profile.nuggets.max(4) {
             tx.outputs.push(CoinData { covhash: t, value: CoinValue(nugget), denom: Denom::Mel, additional_data: Default::default() });
         }
         tx.data = b"seed funds".to_vec().into();
-        tx.fee = CoinValue((20_000u128.saturating_mul(snap.fee_mult) >> 16).min(1u128 << 110));
+        tx.fee = CoinValue(((12_000u128 + 1_100 * tx.outputs.len() as u128).saturating_mul(snap.fee_mult) >> 16).min(1u128 << 110));
         let meta = TxMeta { kind: "faucet".into(), mutation: None, valid_by_construction: true, spends_batch_output: false, spelling: None, pool: None };
         if !apply_and_observe(&mut w, &mut snap, vec![tx], vec![meta], mon, st, &mut txs_in_block)? {
             return mon.on_end(&w, st);
